@@ -101,6 +101,7 @@ func (s *c03RevStore) Encode(io.Writer) error             { return nil }
 type c03Store struct {
 	chanstate.Store
 	hasDiff     bool                  // a CommitDiff is stored (remote chain has an unacked tip)
+	shapes      int                   // number of CommitDiff shapes to split over (k = 0..shapes-1 updates)
 	diff        *chanstate.CommitDiff // materialised on first read (its shape is a case split)
 	tipFails    bool
 	tipErr      error
@@ -120,7 +121,11 @@ func (s *c03Store) RemoteCommitChainTip(*chanstate.OpenChannel) (*chanstate.Comm
 		return nil, chanstate.ErrNoPendingCommit
 	}
 	if s.diff == nil {
-		s.diff = c03Diff(vChoice("storedUpdates", 3))
+		n := s.shapes
+		if n == 0 {
+			n = 3
+		}
+		s.diff = c03Diff(vChoice("storedUpdates", n))
 	}
 	return s.diff, nil
 }
@@ -340,6 +345,19 @@ func c03Diff(k int) *chanstate.CommitDiff {
 			UpdateMsg: &lnwire.UpdateFulfillHTLC{ID: vU64("upd1ID")},
 		})
 		d.ClosedCircuitKeys = []models.CircuitKey{{HtlcID: vU64("closedID")}}
+	}
+	if k >= 3 {
+		d.LogUpdates = append(d.LogUpdates, chanstate.LogUpdate{
+			LogIndex:  vU64("upd2Index"),
+			UpdateMsg: &lnwire.UpdateFailHTLC{ID: vU64("upd2ID")},
+		})
+		d.ClosedCircuitKeys = append(d.ClosedCircuitKeys, models.CircuitKey{HtlcID: vU64("closedID2")})
+	}
+	if k >= 4 {
+		d.LogUpdates = append(d.LogUpdates, chanstate.LogUpdate{
+			LogIndex:  vU64("upd3Index"),
+			UpdateMsg: &lnwire.UpdateFee{FeePerKw: vU32("upd3Fee")},
+		})
 	}
 	return d
 }
@@ -759,9 +777,10 @@ func c03SignType(i int) chanstate.ChannelType {
 	return chanstate.SingleFunderTweaklessBit | chanstate.AnchorOutputsBit | chanstate.ZeroHtlcTxFeeBit
 }
 
-func c03Table(signDomain bool) {
+func c03Table(signDomain bool, shapes int) {
 	c03Config()
 	p := c03SymParty(1, 2)
+	p.store.shapes = shapes
 	if signDomain {
 		// states in which a retransmitted revocation is followed by a real
 		// SignNextCommitment: updates pending, window open. Commitment numbers
@@ -784,8 +803,9 @@ func c03Table(signDomain bool) {
 	c03Check("", p, x, f, res)
 }
 
-func VerifC03Table()     { c03Table(false) }
-func VerifC03TableSign() { c03Table(true) }
+func VerifC03Table()         { c03Table(false, 3) }
+func VerifC03TableSign()     { c03Table(true, 3) }
+func VerifC03TableThorough() { c03Table(false, 5) }
 
 // ---------------------------------------------------------------------------
 // Obligation 2: honest pair. Both parties reloaded from disk after a
@@ -865,6 +885,7 @@ func c03Deliver(tag string, from, to *c03Party, lcFrom, lcTo *LightningChannel, 
 	}
 	vAssert(m.NextLocalCommitHeight == from.localH+1 && m.RemoteCommitTailHeight == from.remTail,
 		tag+"channel_reestablish announces local height+1 and the peer's acked height")
+	vAssert(m.ChanID == lnwire.NewChanIDFromOutPoint(from.outpoint), tag+"channel_reestablish names the channel")
 	if stripDLP {
 		// a peer without option_data_loss_protect
 		m.LocalUnrevokedCommitPoint = nil
@@ -888,6 +909,19 @@ func VerifC03Honest() {
 	// The direction B->A is the same statement with the names swapped: R and
 	// the domain are symmetric in A and B.
 	c03Deliver("", a, b, lcA, lcB, stripDLP, dB, b.unacked && !dA)
+}
+
+// VerifC03HonestBoth (thorough): both directions on one pair of states, B's
+// processing of A's message first, then A's processing of B's.
+func VerifC03HonestBoth() {
+	c03Config()
+	vAssumption("C03 honest pair: both states related by R (see c03HonestPair); non-taproot channel types; no store failure; neither side restored")
+	a, b, dA, dB := c03HonestPair()
+	a.store.shapes, b.store.shapes = 5, 5
+	stripDLP := vBool("peerWithoutDLP")
+	lcA, lcB := c03Chan(a), c03Chan(b)
+	c03Deliver("A->B ", a, b, lcA, lcB, stripDLP, dB, b.unacked && !dA)
+	c03Deliver("B->A ", b, a, lcB, lcA, stripDLP, dA, a.unacked && !dB)
 }
 
 // VerifC03RestoredPeer: A was restored from a static channel backup. Its
@@ -1124,5 +1158,5 @@ func c03TableTaproot(kinds int, slim bool) {
 	}
 }
 
-func VerifC03TableTaproot()         { c03TableTaproot(4, true) }
+func VerifC03TableTaproot()         { c03TableTaproot(5, true) }
 func VerifC03TableTaprootThorough() { c03TableTaproot(5, false) }
